@@ -579,6 +579,18 @@ impl<'a> Context<'a> {
             return ClosestEncloserProofInfo::default();
         };
 
+        // RFC 5155 8.3: the record matching the closest encloser must be from the proper zone.
+        // The DNAME bit must not be set, and the NS bit may only be set together with the SOA
+        // bit. Otherwise the record sits at a zone cut or a redirection and can't be used to
+        // deny names below it.
+        let closest_encloser_types = closest_encloser_matching_record.nsec3_data.type_set();
+        if closest_encloser_types.contains(DNAME)
+            || (closest_encloser_types.contains(RecordType::NS)
+                && !closest_encloser_types.contains(RecordType::SOA))
+        {
+            return ClosestEncloserProofInfo::default();
+        }
+
         let closest_encloser_name_info =
             closest_encloser_candidates.swap_remove(closest_encloser_index);
         let next_closer_name_info =
@@ -712,6 +724,9 @@ impl Iterator for EncloserCandidates<'_> {
         Some(cur)
     }
 }
+
+/// The DNAME record type (RFC 6672), which has no `RecordType` variant of its own.
+const DNAME: RecordType = RecordType::Unknown(39);
 
 /// Logs a debug message and returns a [`Proof`]. This is specific to NSEC3 validation.
 fn nsec3_yield(proof: Proof, query: &Query, msg: impl Display) -> Proof {
